@@ -106,6 +106,7 @@ func runC07(rc *RunCtx) {
 		// the application hands the protocol constructor a config that names one of the protocol's own functions explicitly
 		sc.ConfOneFunc = []int{0, 0, 0, 1, 2}[rc.Scen.Choose(5)]
 	}
+	sc.WrappedTimeouts = !rc.Scen.Has("cutmode") && rc.Scen.Choose(3) == 0
 	// sometimes a second call follows on the same client; the first response is held across it
 	var sc2 *C1
 	if !rc.Scen.Has("cutmode") && !sc.LongSilence && rc.Scen.Chance(1, 5) {
